@@ -150,7 +150,11 @@ func checkC09(c CaseC09) error {
 		return vt.Failf("malformed case: %v", err)
 	}
 	causes := ""
-	for _, b := range c.Bad {
+	for i, b := range c.Bad {
+		if i == 12 {
+			causes += fmt.Sprintf(" ... (%d rows)", len(c.Bad))
+			break
+		}
 		causes += fmt.Sprintf(" %s:%s@%d", b.File, b.Cause, b.Pos)
 	}
 	s1, err := parseStatic(dirty, sgen.Canonical(), c.Inherit)
@@ -281,10 +285,30 @@ func propC09(t *rapid.T) {
 		bad = append(bad, BadRow{File: file, Pos: pos, Cells: c09MakeRow(tb, tpl, cause, value, fresh), Cause: cause.Name})
 		classes = append(classes, file+":"+cause.Name)
 	}
+	if rapid.IntRange(0, 39).Draw(t, "burst") == 0 {
+		// size class: hundreds or thousands of rejected rows in one file (every second time the file whose rejections are
+		// reported as warnings), spread over its positions
+		file := "agency.txt"
+		if rapid.Bool().Draw(t, "burstAnyFile") {
+			file = rapid.SampledFrom(sgen.FileOrder).Draw(t, "burstFile")
+		}
+		if tb := ts.Get(file); len(tb.Rows) > 0 {
+			nb := rapid.SampledFrom([]int{17, 70, 300, 1100, 2100, 4200, 8300}).Draw(t, "burstN")
+			causes := c09Catalogue[file]
+			first := rapid.IntRange(0, 1000).Draw(t, "burstFirstCause")
+			for i := 0; i < nb; i++ {
+				cause := causes[(first+i)%len(causes)]
+				bad = append(bad, BadRow{File: file, Pos: (i * 7) % (len(tb.Rows) + 1), Cells: c09MakeRow(tb, tb.Rows[i%len(tb.Rows)], cause, cause.Values[i%len(cause.Values)], fmt.Sprintf("burst-%d", i)), Cause: cause.Name})
+			}
+			classes = append(classes, fmt.Sprintf("burst>=%d", nb))
+		}
+	}
 	c := CaseC09{Feed: f, Bad: bad, Inherit: rapid.Bool().Draw(t, "inherit")}
 	c09Rec.Eval(dedupe(classes)...)
 	if c09Nontrivial(ts, bad) {
-		c09Rec.NontrivialCase(vt.Fingerprint(c), func() any { return map[string]any{"bad_rows": bad, "files": ts} })
+		c09Rec.NontrivialCase(vt.Fingerprint(c), func() any {
+			return map[string]any{"bad_rows": bad[:min(len(bad), 8)], "bad_rows_total": len(bad), "files": ts}
+		})
 	}
 	vt.Run(t, c09Rec, c, checkC09)
 }
